@@ -46,7 +46,7 @@ macro_rules! dispatch {
     };
 }
 
-pub const ALL: &[&str] = &["C01", "C02", "C03", "C04", "C05", "C06", "C07", "C08", "C09", "C10", "C11", "C12", "C13", "C14", "C15", "C17", "C18", "C19", "C32", "C33", "C36", "C38", "C39", "C40", "C41", "C42", "C43", "C44", "C51"];
+pub const ALL: &[&str] = &["C01", "C02", "C03", "C04", "C05", "C06", "C07", "C08", "C09", "C10", "C11", "C12", "C13", "C14", "C15", "C17", "C18", "C19", "C32", "C33", "C36", "C38", "C39", "C40", "C41", "C42", "C43", "C44", "C49", "C51"];
 
 fn usage() -> i32 {
     eprintln!("usage: verif-sim check <ID> [quick|thorough] | replay <file> | selftest [runs] | list");
